@@ -35,6 +35,7 @@ type Exec struct {
 	globalInit  map[string]func(ex *Exec, st *State, g *ssa.Global) Value
 	stats       struct{ forks, feas, paths int }
 	fallbackBudget time.Duration
+	constFloats map[string]*Term // exact integer constant -> its nearest float (abstract symbol + rounding contract)
 	boundHits   map[string]int // representation bounds that cut feasible paths (reported in evidence)
 }
 
